@@ -399,7 +399,7 @@ func statefulBindProbe(dests []namedDest) storeProbe {
 
 func runC16Stateful(c *Cfg) {
 	r := c.Rep
-	n := c.Pick(3000, 40000)
+	n := c.Pick(3000, 150000)
 	dests := bindDests()
 	parallel(c, n, func(i int) {
 		cs := genStoreCase(c, 2_000_000+i, 60)
@@ -450,7 +450,7 @@ func runC16(c *Cfg) {
 			r.Sample("fixed", map[string]any{"case": bc, "class": class})
 		}
 	})
-	n := c.Pick(60000, 800000)
+	n := c.Pick(60000, 2500000)
 	parallel(c, n, func(i int) {
 		var v any
 		var mk func() any
